@@ -16,7 +16,7 @@
 //!  * accepted broadcast (code 0 or TxInMempoolCache)  => V += 1;
 //!    sequence mismatch "expected E"                     => V := E;
 //!    other rejections / errors                          => V unchanged;
-//!    a confirmation ending with Rejected (non-sequence code) of a tx signed with s => the
+//!    a confirmation ending with Rejected (any code) of a tx signed with s => the
 //!    belief may stay V or become s (the statement leaves it open): V becomes the set {V, s}
 //!    when the call completes; the next fresh signing must use an admissible value and
 //!    collapses the set; +1 / resync apply to every admissible value;
@@ -668,7 +668,8 @@ async fn execute(cfg: &Config, seed: u64, ch: &mut Chooser, keep: bool) -> Run {
                 match a {
                     SAns::Pending => m.sleeping[sub] = true,
                     SAns::Evicted | SAns::Unknown => m.expect_rebroadcast[sub] = true,
-                    SAns::RejectedOther => {
+                    // (either kind of rejection: the statement fixes the belief after neither)
+                    SAns::RejectedOther | SAns::RejectedSequence => {
                         if let Phase::Confirming { sequence, .. } = &m.phase[sub] {
                             m.pending_rollback[sub] = Some(*sequence);
                         }
@@ -824,7 +825,7 @@ fn main() {
             rule: "executions of the real GrpcClient (broadcast_message / broadcast_blobs + confirm) over the fake node: 1..3 concurrent submissions from one client (see `configs`: per submission message or blob submission, explicit gas or gas estimation; menu width; deviation bound), choice points = which outstanding request to answer next / let the polling timers fire, and the answer: BroadcastTx {ok, sequence mismatch expecting s+1 / s-1 / s+2, TxInMempoolCache, other rejection, (wide: legacy sequence code, gRPC failure)}, re-broadcast {ok, mismatch, cache, rejection}, TxStatus {committed, pending, committed-failed, rejected other code, rejected sequence code, evicted, unknown, (wide: gRPC failure)}, EstimateGasPriceAndUsage {ok, mismatch s+1 / s-1 / s+2, other error}; all executions with at most `bound` non-default choices (default: oldest request, honest success), each followed by one honest probe submission; horizon 60 answered requests.  evaluation = one execution; non-trivial = at least one non-default choice; state = distinct observation trace; transition = one answered request",
             assumptions: &[
                 "the model treats gRPC codes 32 (WrongSequence) and 3 (InvalidSequence) as the sequence-mismatch codes and 'account sequence mismatch, expected N,' as the node's message format (celestia-app / cosmos-sdk)",
-                "the statement does not fix the belief after a Rejected (non-sequence code) confirmation: from the completion of that call the model admits both the unchanged value and the rejected transaction's sequence, until the next signing shows which one the client holds",
+                "the statement does not fix the belief after a Rejected confirmation (sequence code or not; resynchronisation is specified for mismatch answers to a broadcast only): from the completion of that call the model admits both the unchanged value and the rejected transaction's sequence, until the next signing shows which one the client holds",
                 "polling timers fire only when the explorer lets them (explicit choice) or when nothing else is outstanding",
                 "a submission is identified by its memo; TxStatus requests by the hash the node returned",
             ],
